@@ -70,3 +70,26 @@ def arg_path(body, c, i):
     import ts
     p = ts.access_path(body, c["args"][i]) if i < len(c["args"]) else None
     return ts.strip_env(p) if p is not None else None
+
+
+def count_per_iteration(body, header, is_event):
+    """min / max number of event blocks on the forward paths of ONE iteration of the natural loop `header`
+    (from the header to a back edge into it; paths leaving the loop are not iterations).  Inner loops: back edges not followed."""
+    blocks = body.loops[header]
+    back = set(body.back_edges)
+    memo = {}
+    def go(b):
+        if b in memo: return memo[b]
+        memo[b] = None
+        e = 1 if is_event(b) else 0
+        res = []
+        for s_ in body.succ(b):
+            if s_ == header and (b, s_) in back:
+                res.append((0, 0)); continue
+            if (b, s_) in back or s_ not in blocks: continue
+            r = go(s_)
+            if r is not None: res.append(r)
+        r = (e + min(x[0] for x in res), e + max(x[1] for x in res)) if res else None
+        memo[b] = r
+        return r
+    return go(header) or (0, 0)
